@@ -1,6 +1,7 @@
 """C05 — client-level check (monitors on the real client through H-client; Lean obligations from Props/C05.lean)."""
 from vlib import *
 import client_check as CC
+import sender_check
 
 
 def run(ctx):
@@ -11,7 +12,11 @@ def run(ctx):
                        "cancellation signals), a broker (acks with reason codes/properties, inbound QoS 0/1/2 messages, held-back replies), byte chunking, connection loss with partial delivery, "
                        "reconnects with changing Receive Maximum / Server Keep Alive / Session Present, virtual time, then a fault-free suffix and cancel() or async_disconnect; "
                        "the C05 monitor runs on every transcript; non-trivial = distinct scenario with >= 2 (re)connections and > 3 operations")
-    found = CC.report(ctx, "C05", fails)
+    found_s = sender_check.run(ctx, 300 if ctx.tier == "quick" else 20000)
+    import replies_check
+    found_s = replies_check.run(ctx, 200 if ctx.tier == "quick" else 20000) or found_s
+    ctx.cov["rule"] += "; plus lock-step of the real async_sender (mock service) and detail::replies against their Lean models"
+    found = found_s or CC.report(ctx, "C05", fails)
     report_broken_ties(ctx, found)
     if ctx.tier == "thorough" and not ctx.ties_broken:
         for m, msg in leanchecker(ctx.lean.get("modules", [])):
